@@ -666,3 +666,311 @@ Proof.
   - intros [i b] _. cbn. destruct b; cbn; eauto.
   - exact Hb.
 Qed.
+
+(* ======================================================================== *)
+(* 4. warm cache and cold cache                                              *)
+(* ======================================================================== *)
+
+Lemma read_all_spec {V} (read : N -> option V) ids :
+  (forall id, In id ids -> read id <> None) ->
+  exists l, read_all read ids = Some l /\ map fst l = ids /\
+            forall id v, In (id, v) l <-> In id ids /\ read id = Some v.
+Proof.
+  induction ids as [|i r IH]; intros H; cbn.
+  - exists []. split; [reflexivity|]. split; [reflexivity|]. intros id v. cbn. tauto.
+  - destruct IH as (l & E & Hm & Hl). { intros id Hid. apply H. now right. }
+    destruct (read i) as [vi|] eqn:Ei; [|exfalso; now apply (H i (or_introl eq_refl))].
+    rewrite E. exists ((i, vi) :: l). split; [reflexivity|]. split; [cbn; now rewrite Hm|].
+    intros id v. cbn. rewrite Hl. split.
+    + intros [[= <- <-]|[H1 H2]]; [split; [now left|assumption]|split; [now right|assumption]].
+    + intros [[<-|H1] H2]; [left; congruence|right; now split].
+Qed.
+
+(* the cache is in sync with the bucket (what holds after Flush once every item has been loaded) *)
+Record in_sync {V} (accepted : list N) (read : N -> option V) (keys : list bytes) (c : cache V) : Prop := {
+  sync_nodup : NoDup (cache_ids c);                                      (* ic.items is a map *)
+  sync_live : forall id e, In (id, e) c -> ce_deleted e = false;         (* Flush dropped the deleted entries *)
+  sync_val : forall id e, In (id, e) c -> read id = Some (ce_val e);     (* ReadFrom decodes what was written *)
+  sync_all : forall id, yields accepted keys id -> In id (cache_ids c);  (* everything has been loaded *)
+  sync_keys : forall id, In id (cache_ids c) -> yields accepted keys id  (* enumeration invariant of section 3 *)
+}.
+
+Lemma NoDup_fst_NoDup {X Y} (l : list (X * Y)) : NoDup (map fst l) -> NoDup l.
+Proof.
+  induction l as [|x l IH]; cbn; intros H; [constructor|]. inversion H as [|? ? Hx Hl]; subst.
+  constructor; [|now apply IH]. intros Hin. apply Hx. now apply in_map.
+Qed.
+
+Lemma live_items_all {V} (c : cache V) :
+  (forall id e, In (id, e) c -> ce_deleted e = false) ->
+  live_items c = map (fun e => (fst e, ce_val (snd e))) c.
+Proof.
+  induction c as [|[i e] c IH]; intros H; cbn; [reflexivity|].
+  rewrite (H i e (or_introl eq_refl)). cbn. f_equal. apply IH. intros id e' Hin. apply (H id e'). now right.
+Qed.
+
+Theorem c04_warm_cold_sets_lemma {V} accepted (read : N -> option V) keys (c : cache V) :
+  in_sync accepted read keys c ->
+  exists warm cold,
+    enum_items accepted read keys c = Some warm /\
+    enum_items accepted read keys [] = Some cold /\
+    NoDup (map fst warm) /\ Permutation warm cold.
+Proof.
+  intros [Hnd Hlive Hval Hall Hkeys]. unfold enum_items.
+  (* warm: the scan finds nothing new *)
+  assert (Ew : scan_ids accepted (cache_ids c) keys = []).
+  { destruct (scan_ids accepted (cache_ids c) keys) as [|i l] eqn:E; [reflexivity|]. exfalso.
+    assert (Hin : In i (scan_ids accepted (cache_ids c) keys)) by (rewrite E; now left).
+    apply scan_ids_spec in Hin. destruct Hin as [Hn Hy]. apply Hn. now apply Hall. }
+  rewrite Ew. cbn [read_all]. rewrite app_nil_r.
+  (* cold: the scan finds every id, and every read succeeds *)
+  cbn [cache_ids map].
+  assert (Hscan : forall id, In id (scan_ids accepted [] keys) <-> In id (cache_ids c)).
+  { intros id. rewrite scan_ids_spec. split; [intros [_ Hy]; now apply Hall|]. intros Hin. split; [intros []|now apply Hkeys]. }
+  assert (Hget : forall id, In id (cache_ids c) -> exists e, In (id, e) c).
+  { intros id Hin. apply in_map_iff in Hin. destruct Hin as ([i e] & <- & Hin). now exists e. }
+  destruct (read_all_spec read (scan_ids accepted [] keys)) as (cold & Ec & Hm & Hcold).
+  { intros id Hin. apply Hscan in Hin. destruct (Hget id Hin) as (e & He). rewrite (Hval id e He). discriminate. }
+  rewrite Ec. exists (live_items c), cold. cbn [app].
+  rewrite (live_items_all c Hlive).
+  assert (Hfst : map fst (map (fun e : N * centry V => (fst e, ce_val (snd e))) c) = cache_ids c).
+  { unfold cache_ids. rewrite map_map. reflexivity. }
+  split; [reflexivity|]. split; [reflexivity|]. split; [now rewrite Hfst|].
+  apply NoDup_Permutation.
+  - apply NoDup_fst_NoDup. now rewrite Hfst.
+  - apply NoDup_fst_NoDup. rewrite Hm. apply scan_ids_NoDup.
+  - intros [id v]. rewrite Hcold, Hscan, in_map_iff. split.
+    + intros ([i e] & [= <- <-] & Hin). cbn. split; [apply in_map_iff; now exists (i, e)|]. now apply Hval.
+    + intros [Hin Hr]. destruct (Hget id Hin) as (e & He). exists (id, e). split; [|assumption].
+      cbn. f_equal. rewrite (Hval id e He) in Hr. congruence.
+Qed.
+
+(* ---- two exact selections of the same candidates report the same distances ---- *)
+
+Lemma SSorted_map_split {A} (d : A -> Q) l y t :
+  StronglySorted Qle (map d (l ++ y :: t)) ->
+  (forall e, In e l -> (d e <= d y)%Q) /\ (forall e, In e t -> (d y <= d e)%Q).
+Proof.
+  induction l as [|x l IH]; cbn; intros Hs.
+  - destruct (StronglySorted_inv Hs) as [_ Hy]. split; [intros ? []|].
+    intros e He. rewrite Forall_forall in Hy. apply Hy. now apply in_map.
+  - destruct (StronglySorted_inv Hs) as [Hs' Hx]. destruct (IH Hs') as [H1 H2]. split; [|assumption].
+    intros e [<-|He]; [|now apply H1]. rewrite Forall_forall in Hx. apply Hx.
+    rewrite map_app. apply in_or_app. right. now left.
+Qed.
+
+Lemma ksel_split_pos_le {A} (d : A -> Q) k cands r1 r2 l1 x t1 l2 y t2 :
+  NoDup cands -> ksel_split d k cands r1 -> ksel_split d k cands r2 ->
+  r1 = l1 ++ x :: t1 -> r2 = l2 ++ y :: t2 -> length l1 = length l2 -> (d x <= d y)%Q.
+Proof.
+  intros Hnd (dr1 & Hp1 & _ & Hs1 & Hd1) (dr2 & Hp2 & _ & Hs2 & _) -> -> Hlen.
+  destruct (Qlt_le_dec (d y) (d x)) as [Hlt|Hle]; [exfalso|assumption].
+  destruct (SSorted_map_split d _ _ _ Hs1) as [_ Ht1].
+  destruct (SSorted_map_split d _ _ _ Hs2) as [Hl2 _].
+  assert (Hincl : incl (l2 ++ [y]) l1).
+  { intros e He.
+    assert (Hey : (d e <= d y)%Q).
+    { apply in_app_or in He. destruct He as [He|[<-|[]]]; [now apply Hl2|lra]. }
+    assert (Hec : In e cands).
+    { apply (Permutation_in _ (Permutation_sym Hp2)). apply in_or_app. left.
+      apply in_app_or in He. apply in_or_app. destruct He as [He|[<-|[]]]; [now left|right; now left]. }
+    apply (Permutation_in _ Hp1) in Hec. apply in_app_or in Hec. destruct Hec as [Hec|Hec].
+    - apply in_app_or in Hec. destruct Hec as [Hec|[<-|Hec]]; [assumption|lra|].
+      specialize (Ht1 e Hec). lra.
+    - assert (Hxe : (d x <= d e)%Q) by (apply Hd1; [apply in_or_app; right; now left|assumption]). lra. }
+  assert (Hnd2 : NoDup (l2 ++ [y])).
+  { assert (H : NoDup ((l2 ++ y :: t2) ++ dr2)) by (eapply Permutation_NoDup; eassumption).
+    apply NoDup_app_l in H. replace (l2 ++ y :: t2) with ((l2 ++ [y]) ++ t2) in H by (rewrite <- app_assoc; reflexivity).
+    now apply NoDup_app_l in H. }
+  pose proof (NoDup_incl_length Hnd2 Hincl) as Hc. rewrite app_length in Hc. cbn in Hc. lia.
+Qed.
+
+Lemma Forall2_by_pos {A} (P : A -> A -> Prop) : forall r1 r2,
+  length r1 = length r2 ->
+  (forall l1 x t1 l2 y t2, r1 = l1 ++ x :: t1 -> r2 = l2 ++ y :: t2 -> length l1 = length l2 -> P x y) ->
+  Forall2 P r1 r2.
+Proof.
+  induction r1 as [|x r1 IH]; intros [|y r2] Hlen H; cbn in Hlen; try discriminate; constructor.
+  - apply (H [] x r1 [] y r2); reflexivity.
+  - apply IH; [congruence|]. intros l1 x' t1 l2 y' t2 -> -> Hl.
+    apply (H (x :: l1) x' t1 (y :: l2) y' t2); cbn; congruence.
+Qed.
+
+Theorem ksel_split_same_dists {A} (d : A -> Q) k cands r1 r2 :
+  NoDup cands -> ksel_split d k cands r1 -> ksel_split d k cands r2 ->
+  Forall2 Qeq (map d r1) (map d r2).
+Proof.
+  intros Hnd H1 H2.
+  assert (Hlen : length r1 = length r2).
+  { destruct H1 as (_ & _ & -> & _), H2 as (_ & _ & -> & _). reflexivity. }
+  assert (HF : Forall2 (fun a b => (d a == d b)%Q) r1 r2).
+  { apply Forall2_by_pos; [assumption|]. intros l1 x t1 l2 y t2 E1 E2 Hl.
+    apply Qle_antisym.
+    - apply (ksel_split_pos_le d k cands r1 r2 l1 x t1 l2 y t2); assumption.
+    - apply (ksel_split_pos_le d k cands r2 r1 l2 y t2 l1 x t1); auto. }
+  clear -HF. induction HF; cbn; constructor; assumption.
+Qed.
+
+(* warm and cold searches: exact selections of the same candidates, same distances *)
+Theorem c04_warm_cold_lemma {V} accepted (read : N -> option V) keys (c : cache V)
+        (d : N * V -> Q) (keep : N * V -> bool) (limit : nat) :
+  in_sync accepted read keys c -> (0 < limit)%nat ->
+  exists warm cold,
+    enum_items accepted read keys c = Some warm /\
+    enum_items accepted read keys [] = Some cold /\
+    Permutation warm cold /\
+    forall ow oc, Permutation ow warm -> Permutation oc cold ->     (* any two Go map iteration orders *)
+    exists rw rc,
+      flat_search d keep limit ow = Some rw /\ flat_search d keep limit oc = Some rc /\
+      ksel fst d limit (filter keep warm) rw /\ ksel fst d limit (filter keep warm) rc /\
+      Forall2 Qeq (map d rw) (map d rc).
+Proof.
+  intros Hsync Hl. destruct (c04_warm_cold_sets_lemma accepted read keys c Hsync) as (warm & cold & Ew & Ec & Hnd & Hp).
+  exists warm, cold. repeat (split; [assumption|]).
+  intros ow oc How Hoc.
+  assert (Hpf : forall o, Permutation o warm -> Permutation (filter keep o) (filter keep warm)).
+  { intros o Ho. clear -Ho. induction Ho; cbn.
+    - constructor.
+    - destruct (keep x); [now constructor|assumption].
+    - destruct (keep x), (keep y); try reflexivity. apply perm_swap.
+    - etransitivity; eassumption. }
+  assert (Hndf : NoDup (map fst (filter keep warm))).
+  { clear -Hnd. induction warm as [|x l IH]; cbn in *; [constructor|].
+    inversion Hnd as [|? ? Hx Hl]; subst. destruct (keep x); cbn.
+    - constructor; [|now apply IH]. intros Hin. apply Hx. apply in_map_iff in Hin.
+      destruct Hin as (y & E & Hy). apply filter_In in Hy. apply in_map_iff. exists y. tauto.
+    - now apply IH. }
+  destruct (c04_exact_lemma fst d limit _ _ (Hpf ow How) Hndf Hl) as (rw & Erw & _ & Hkw & Hsw).
+  destruct (c04_exact_lemma fst d limit _ _ (Hpf oc (Permutation_trans Hoc (Permutation_sym Hp))) Hndf Hl) as (rc & Erc & _ & Hkc & Hsc).
+  exists rw, rc. unfold flat_search. repeat (split; [assumption|]).
+  apply (ksel_split_same_dists d limit (filter keep warm)); try assumption.
+  now apply NoDup_fst_NoDup.
+Qed.
+
+(* ---- binary store: the current IdFromKey, and the pinned one ---- *)
+
+(* computed on the generated constant: fails if IdFromKey stops accepting 'q' (defect F3) or 'v' *)
+Lemma bq_accepts_q : existsb (N.eqb suf_q) bq_idfromkey_suffixes = true.
+Proof. vm_compute. reflexivity. Qed.
+Lemma bq_accepts_v : existsb (N.eqb suf_v) bq_idfromkey_suffixes = true.
+Proof. vm_compute. reflexivity. Qed.
+
+Theorem c04_enum_binary_lemma (items : list (N * bq_keys)) keys :
+  ids_ok (map fst items) -> bucket_of keys (binary_keys items) ->
+  NoDup (enum_ids bq_idfromkey_suffixes keys) /\
+  forall id, In id (enum_ids bq_idfromkey_suffixes keys) <-> In id (map fst items).
+Proof. apply enum_binary_generic; [exact bq_accepts_q|exact bq_accepts_v]. Qed.
+
+(* IdFromKey of the pinned tree: points stored under 'q' only are not enumerated at all *)
+Theorem c04_binary_cold_v0_lemma (items : list (N * bq_keys)) keys :
+  (forall it, In it items -> snd it = BQ_q) ->
+  ids_ok (map fst items) -> bucket_of keys (binary_keys items) ->
+  enum_ids bq_idfromkey_suffixes_v0 keys = [].
+Proof.
+  intros Hq Hok (other & Hp & Hother).
+  destruct (enum_ids bq_idfromkey_suffixes_v0 keys) as [|i l] eqn:E; [reflexivity|]. exfalso.
+  assert (Hin : In i (enum_ids bq_idfromkey_suffixes_v0 keys)) by (rewrite E; now left).
+  unfold enum_ids in Hin. apply scan_ids_spec in Hin. destruct Hin as [_ Hy].
+  apply (yields_perm _ _ _ _ Hp) in Hy. apply yields_app in Hy. destruct Hy as [Hy|Hy].
+  - apply (yields_flat_map bq_idfromkey_suffixes_v0
+             (fun it : N * bq_keys => match snd it with
+                      | BQ_v => [node_key (fst it) suf_v]
+                      | BQ_q => [node_key (fst it) suf_q]
+                      | BQ_qv => [node_key (fst it) suf_q; node_key (fst it) suf_v]
+                      end)
+             fst (fun it : N * bq_keys => bq_sufs (snd it)) items i) in Hy.
+    + destruct Hy as (x & Hx & _ & s & Hs & Ha). rewrite (Hq x Hx) in Hs. cbn in Hs, Ha.
+      destruct Hs as [<-|[]]. destruct Ha as [Ha|[]]. discriminate.
+    + intros x Hx. apply Hok. now apply in_map.
+    + intros [j b]. cbn. now destruct b.
+  - now apply (yields_foreign bq_idfromkey_suffixes_v0 other i Hother).
+Qed.
+
+(* ======================================================================== *)
+(* 5. every reachable state of a store enumerates exactly what is stored     *)
+(* ======================================================================== *)
+
+Definition kentry_eq_dec : forall a b : kentry, {a = b} + {a <> b}.
+Proof. decide equality; apply Bool.bool_dec. Defined.
+Definition fstate_eq_dec : forall a b : fstate, {a = b} + {a <> b}.
+Proof. decide equality; try apply Bool.bool_dec. decide equality. apply kentry_eq_dec. Defined.
+Definition feqb (a b : fstate) : bool := if fstate_eq_dec a b then true else false.
+Definition fmem (s : fstate) (l : list fstate) : bool := existsb (feqb s) l.
+Fixpoint fdedup (l : list fstate) : list fstate :=
+  match l with [] => [] | x :: r => if fmem x r then fdedup r else x :: fdedup r end.
+
+(* the per-id states reachable from an empty store, by breadth-first closure under all operations *)
+Fixpoint bfs (fuel : nat) (c : kcfg) (seen frontier : list fstate) : list fstate :=
+  match fuel with
+  | O => seen
+  | S n =>
+      let next := flat_map (fun s => map (fstep c s) all_pops) frontier in
+      let new := fdedup (filter (fun s => negb (fmem s seen)) next) in
+      match new with [] => seen | _ => bfs n c (seen ++ new) new end
+  end.
+Definition reach (c : kcfg) : list fstate :=
+  bfs 64 c [fstate0 true; fstate0 false] [fstate0 true; fstate0 false].
+
+(* checked by computation, per configuration *)
+Definition cfg_ok (c : kcfg) : bool :=
+  fmem (fstate0 true) (reach c) && fmem (fstate0 false) (reach c) &&
+  forallb (fun s => forallb (fun o => fmem (fstep c s o) (reach c)) all_pops) (reach c) &&
+  forallb (fun s => Bool.eqb (fenum c s) (f_live s)) (reach c).
+
+Lemma fmem_In s l : fmem s l = true <-> In s l.
+Proof.
+  unfold fmem. rewrite existsb_exists. split.
+  - intros (y & Hy & E). unfold feqb in E. destruct (fstate_eq_dec s y); [now subst|discriminate].
+  - intros H. exists s. split; [assumption|]. unfold feqb. destruct (fstate_eq_dec s s); congruence.
+Qed.
+
+Lemma all_pops_all o : In o all_pops.
+Proof. destruct o; cbn; tauto. Qed.
+
+Lemma reach_closed c pops : cfg_ok c = true -> forall s, In s (reach c) -> In (fold_left (fstep c) pops s) (reach c).
+Proof.
+  intros Hok. unfold cfg_ok in Hok. rewrite !andb_true_iff in Hok. destruct Hok as [[[_ _] Hcl] _].
+  rewrite forallb_forall in Hcl.
+  induction pops as [|o r IH]; intros s Hs; cbn; [assumption|]. apply IH.
+  specialize (Hcl s Hs). rewrite forallb_forall in Hcl. apply fmem_In. apply Hcl. apply all_pops_all.
+Qed.
+
+Lemma krun_proj c ops : forall s id,
+  krun c s ops id = fold_left (fstep c) (map (fun o => proj o id) ops) (s id).
+Proof.
+  induction ops as [|o r IH]; intros s id; cbn; [reflexivity|]. unfold krun in IH. now rewrite IH.
+Qed.
+
+Theorem c04_enum_reachable_generic c :
+  cfg_ok c = true ->
+  forall trained0 ops id, enumerated c (krun c (kstate0 trained0) ops) id = stored (krun c (kstate0 trained0) ops) id.
+Proof.
+  intros Hok trained0 ops id. unfold enumerated, stored. rewrite krun_proj.
+  assert (Hin : In (fold_left (fstep c) (map (fun o => proj o id) ops) (kstate0 trained0 id)) (reach c)).
+  { apply reach_closed; [assumption|]. unfold kstate0. unfold cfg_ok in Hok. rewrite !andb_true_iff in Hok.
+    destruct Hok as [[[H1 H2] _] _]. apply fmem_In. now destruct trained0. }
+  unfold cfg_ok in Hok. rewrite !andb_true_iff in Hok. destruct Hok as [_ Hg].
+  rewrite forallb_forall in Hg. specialize (Hg _ Hin). now apply Bool.eqb_prop in Hg.
+Qed.
+
+Lemma cfg_plain_ok : cfg_ok cfg_plain = true. Proof. vm_compute. reflexivity. Qed.
+Lemma cfg_product_ok : cfg_ok cfg_product = true. Proof. vm_compute. reflexivity. Qed.
+(* depends on the generated bq_idfromkey_suffixes: false for the pinned IdFromKey *)
+Lemma cfg_binary_ok : cfg_ok cfg_binary = true. Proof. vm_compute. reflexivity. Qed.
+Lemma cfg_binary_v0_not_ok : cfg_ok cfg_binary_v0 = false. Proof. vm_compute. reflexivity. Qed.
+
+Theorem c04_enum_reachable_lemma :
+  forall c, c = cfg_plain \/ c = cfg_product \/ c = cfg_binary ->
+  forall trained0 ops id, enumerated c (krun c (kstate0 trained0) ops) id = stored (krun c (kstate0 trained0) ops) id.
+Proof.
+  intros c [->|[->|->]]; apply c04_enum_reachable_generic;
+    [exact cfg_plain_ok|exact cfg_product_ok|exact cfg_binary_ok].
+Qed.
+
+(* pinned IdFromKey, binary quantiser with a fixed threshold: write, flush, lose the cache *)
+Theorem c04_binary_reach_refuted_lemma :
+  let s := krun cfg_binary_v0 (kstate0 true) [KSet 7; KFlush; KDropCache] in
+  stored s 7 = true /\ enumerated cfg_binary_v0 s 7 = false /\
+  (* ... while the cache was still there the point was found *)
+  enumerated cfg_binary_v0 (krun cfg_binary_v0 (kstate0 true) [KSet 7; KFlush]) 7 = true.
+Proof. vm_compute. repeat split. Qed.
